@@ -243,6 +243,31 @@ def pairs(ck, em, rng, count):
                 if kind == "jfa":
                     fact("JFA.trained_V", rel(np.asarray(t2.V) / at[:, None], t1.V))
                     fact("JFA.trained_D", rel(np.asarray(t2.D) / at, t1.D))
+            # ---- scoring in widely different units (1e-6.5 ... 1e5 per feature; no training involved, so the library's
+            # ABSOLUTE default variance floor of one machine epsilon stays far below every variance): an absolute
+            # constant next to a unit-carrying quantity -- an epsilon in a denominator, a ridge -- shows here
+            aw = 10.0 ** r.uniform(-6.5, 5, size=D) * r.choice([-1.0, 1.0], size=D)
+            atw = np.tile(aw, C)
+            u3 = mk(mu0 * aw, v0 * aw ** 2)
+            st3 = [u3.acc_stats(x * aw) for x in Xp]
+            for norm in (False, True):
+                s1 = em.linear_scoring(models, u1, st1, off, norm)
+                s3 = em.linear_scoring(models * aw, u3, st3, off * aw, norm)
+                fact("LinearScore.wide_units" + (".normalised" if norm else ""), rel(s3, s1, 1e-6), "scales %s" % aw.tolist())
+            g3 = [u3.acc_stats(x * aw) for x in sessions]
+            for kind in ("isv", "jfa"):
+                def fa3(ubm, sc):
+                    m = em.ISVMachine(r_U=rU, ubm=ubm) if kind == "isv" else em.JFAMachine(r_U=rU, r_V=rV, ubm=ubm)
+                    m.U = U * sc[:, None]
+                    m.D = Dd * sc
+                    if kind == "jfa":
+                        m.V = V * sc[:, None]
+                    m.enroll_iterations = 2
+                    return m
+                f1, f3 = fa3(u1, np.ones(C * D)), fa3(u3, atw)
+                e1, e3 = f1.enroll(g1), f3.enroll(g3)
+                fact(kind.upper() + ".score.wide_units", rel([f3.score(e3, g3[:2])], [f1.score(e1, g1[:2])], 1e-6), "scales %s" % aw.tolist())
+                fact(kind.upper() + ".x.wide_units", rel(f3.estimate_x(g3[:2]), f1.estimate_x(g1[:2]), 1e-6))
             # ---- i-vector
             dt = int(r.randint(1, 3))
             T0 = r.normal(size=(C, D, dt))
